@@ -596,6 +596,10 @@ func drawChain(t *rapid.T) (chain.Case, []val.KV) {
 	for _, k := range mperm[:nm] {
 		cs.Inv.Meta = append(cs.Inv.Meta, val.KV{K: k, V: val.Str("v" + k)})
 	}
+	cs.Inv.TypedArg = rapid.IntRange(0, 5).Draw(t, "typedarg") == 3
+	if cs.Inv.TypedArg {
+		cs.Inv.Decoded = false // a decoded token holds plain nodes only
+	}
 	if rapid.Bool().Draw(t, "encmeta") {
 		ne := rapid.IntRange(1, 3).Draw(t, "nenc")
 		for i := 0; i < ne; i++ {
